@@ -224,9 +224,10 @@ def rule_R0(toks):
 
 def rule_R1(toks):
     n = 0
-    for pat, tmpl in (("iterate!($X, $n:expr)", "$X.iter()"),
-                      ("iterate_mut!($X)", "$X.iter_mut()"),
-                      ("drain!($X, $n:expr)", "$X.drain(..)")):
+    # (macro `expr` fragments are substituted as a unit, hence the parentheses)
+    for pat, tmpl in (("iterate!($X, $n:expr)", "($X).iter()"),
+                      ("iterate_mut!($X)", "($X).iter_mut()"),
+                      ("drain!($X, $n:expr)", "($X).drain(..)")):
         toks, k = rewrite(toks, pat, tmpl)
         n += k
     return toks, n
@@ -480,3 +481,27 @@ def stmt_end(toks, i):
             return j
         j += 1
     return j
+
+
+def stmt_start(toks, i):
+    """index of the first token of the statement containing token i (walk back to the previous `;`, `{` or `}` at the
+    same nesting depth)"""
+    depth = 0
+    j = i - 1
+    while j >= 0:
+        t = toks[j]
+        if t.kind == "raw":
+            j -= 1
+            continue
+        if t.text in CLOSE:
+            depth += 1
+        elif t.text in OPEN:
+            if depth == 0:
+                return j + 1
+            depth -= 1
+        elif t.text == ";" and depth == 0:
+            return j + 1
+        elif t.text == "}" and depth == 0:
+            return j + 1
+        j -= 1
+    return 0
